@@ -471,6 +471,20 @@ func runReplica(t *testing.T, in *c09Input, withQueries bool) runOut {
 	}
 	r.Log = "" // carries gas/stack text only
 	out.tx, _ = proto.Marshal(&r)
+	if os.Getenv("VERIF_C09_DEBUG") == "2" {
+		fmt.Printf("   resp code=%d data=%x gw=%d gu=%d\n", r.Code, r.Data, r.GasWanted, r.GasUsed)
+		for _, ev := range r.Events {
+			fmt.Printf("     ev %s", ev.Type)
+			for _, a := range ev.Attributes {
+				v := a.Value
+				if len(v) > 90 {
+					v = v[:90]
+				}
+				fmt.Printf(" %s=%s", a.Key, v)
+			}
+			fmt.Println()
+		}
+	}
 	out.txOK = r.Code == 0
 	if out.txOK {
 		for _, m := range EventAttrs(r.Events, "eth.evm.v1.EventEthereumTx") {
